@@ -2385,24 +2385,24 @@ class RawAlgorithmsMixIn:
         if numpy.ndim(v_data) == 3:
             D,P,N = v_data.shape
             if out is None:
-                out = numpy.zeros((D,P,N,N),dtype=v_data.dtype)
+                out = numpy.zeros((D,P,N+abs(k),N+abs(k)),dtype=v_data.dtype)
             else:
                 out[...] = 0.
 
             for d in range(D):
                 for p in range(P):
-                    out[d,p] = numpy.diag(v_data[d,p])
+                    out[d,p] = numpy.diag(v_data[d,p], k)
 
             return out
 
         else:
             D,P,M,N = v_data.shape
             if out is None:
-                out = numpy.zeros((D,P,min(M,N)),dtype=v_data.dtype)
+                out = numpy.zeros((D,P) + numpy.diag(v_data[0,0], k).shape,dtype=v_data.dtype)
 
             for d in range(D):
                 for p in range(P):
-                    out[d,p] = numpy.diag(v_data[d,p])
+                    out[d,p] = numpy.diag(v_data[d,p], k)
 
             return out
 
